@@ -9,7 +9,28 @@ import (
 // Tree rewrites on generated programs: cosmetic refactorings (C02) and behaviour-changing edits
 // (C03/C04).  A rewrite is described by (kind, site): the site-th applicable place in the function.
 
+func hasVar(e GExpr) bool {
+	switch x := e.(type) {
+	case EVar:
+		return true
+	case EBin:
+		return hasVar(x.L) || hasVar(x.R)
+	case ECmp:
+		return hasVar(x.L) || hasVar(x.R)
+	case ELen:
+		return hasVar(x.X)
+	case EIndex:
+		return true
+	case ECall:
+		return true
+	case ENot:
+		return hasVar(x.X)
+	}
+	return false
+}
+
 type rewriter struct {
+	constTest bool // the flipped test had constant operands only (it is folded by the compiler)
 	kind   string
 	target int // which site to rewrite (-1: count only)
 	seen   int
@@ -159,6 +180,9 @@ func (w *rewriter) stmt(s GStmt) GStmt {
 				case "flip": // cosmetic: opposite test, branches exchanged
 					if w.hit() {
 						w.note = "flip " + cmp.Op + " -> " + alt + " with branches exchanged"
+						if !hasVar(cmp.L) && !hasVar(cmp.R) {
+							w.constTest = true
+						}
 						if len(el) == 0 {
 							return SIf{C: ECmp{alt, cmp.L, cmp.R}, Then: []GStmt{}, Else: th}
 						}
@@ -226,6 +250,9 @@ func applyRewrite(r *Rng, f *GFunc, kind string) (*GFunc, string) {
 	nf.Body = w.stmts(f.Body)
 	if !w.did {
 		return nil, ""
+	}
+	if w.constTest {
+		return &nf, "CONST-TEST " + w.note
 	}
 	return &nf, w.note
 }
